@@ -113,6 +113,7 @@ type Thread struct {
 	exited   bool
 	wk       waitKind
 	wword    *int32
+	wword2   *int32 // RWMutex: announced writers (readers wait while it is > 0)
 	wwrite   bool
 	wcases   [MaxCase]Case
 	ncases   int32
@@ -257,7 +258,7 @@ func enabled(t *Thread) bool {
 		if t.wwrite {
 			return *t.wword == 0
 		}
-		return *t.wword >= 0
+		return *t.wword >= 0 && (t.wword2 == nil || *t.wword2 == 0)
 	case wWG:
 		return *t.wword <= 0
 	case wChans:
@@ -302,6 +303,7 @@ func choose(n int32, kind int8, pre bool) int32 {
 	}
 	taken[step], nopts[step], ckind[step], cpre[step] = c, n, kind, pre
 	step++
+	progress++
 	return c
 }
 
@@ -342,6 +344,7 @@ func schedule(me *Thread, op int32) {
 		traceEv(me, op)
 	}
 	npoints++
+	progress++
 	for {
 		if ending {
 			// hand control to orchestrator, park until torn down
@@ -461,12 +464,17 @@ func BlockWord(w *int32) {
 }
 
 //go:norace
-func BlockRW(w *int32, write bool) {
+func BlockRW(w *int32, write bool) { BlockRW2(w, nil, write) }
+
+// BlockRW2: ww counts the writers that announced themselves; a reader is not admitted while it is > 0.
+//
+//go:norace
+func BlockRW2(w, ww *int32, write bool) {
 	if aborting {
 		return
 	}
 	me := curT
-	me.wk, me.wword, me.wwrite = wRW, w, write
+	me.wk, me.wword, me.wword2, me.wwrite = wRW, w, ww, write
 	if write {
 		block(me, OpLock)
 	} else {
@@ -1139,6 +1147,13 @@ type Config struct {
 	Trace   bool
 }
 
+// Progress is a counter that grows with every scheduling point (for the worker's watchdog).
+//
+//go:norace
+func Progress() int64 { return progress }
+
+var progress int64
+
 // Run executes body as thread 0 under the given choice prefix.
 // resetHooks run at the start of every execution: process-wide state kept by shim objects
 // that live in package-level variables of the library (e.g. a sync.Pool) must not leak from
@@ -1150,8 +1165,21 @@ var resetHooks []func()
 //go:norace
 func RegisterReset(f func()) { resetHooks = append(resetHooks, f) }
 
+// RegisterResetOnce adds a hook that runs at the start of the next execution only (objects created during
+// an execution register themselves again when they are used again).
+//
+//go:norace
+func RegisterResetOnce(f func()) { resetOnce = append(resetOnce, f) }
+
+var resetOnce []func()
+
 func Run(c Config, body func()) Result {
 	for _, f := range resetHooks {
+		f()
+	}
+	once := resetOnce
+	resetOnce = nil
+	for _, f := range once {
 		f()
 	}
 	begin(c.Prefix, c.Horizon)
